@@ -99,7 +99,7 @@ func (acraCensor *AcraCensor) HandleQuery(rawQuery string) error {
 			continue
 		}
 		if queryIgnoreHandler, ok := handler.(*handlers.QueryIgnoreHandler); ok {
-			continueHandling, _ := queryIgnoreHandler.CheckQuery(rawQuery, nil)
+			continueHandling, _ := queryIgnoreHandler.CheckQuery(rawQuery, parsedQuery)
 			if !continueHandling {
 				acraCensor.logAllowedQuery(queryWithHiddenValues, parsedQuery)
 				return nil
